@@ -156,16 +156,7 @@ theorem closePc1_phaseKeep (s : State) (p : Nat) : PhaseKeep s (closePc1 s p) :=
       · exact Or.inr rfl
       · split <;> exact Or.inl rfl
 
-theorem closePc_phaseKeep (s : State) (p : Nat) : PhaseKeep s (closePc s p) := by
-  unfold closePc
-  split
-  · exact PhaseKeep.refl s
-  · split
-    · exact PhaseKeep.refl s
-    · dsimp only
-      split
-      · exact (closePc1_phaseKeep s p).trans (closePc1_phaseKeep _ _)
-      · exact closePc1_phaseKeep s p
+theorem closePc_phaseKeep (s : State) (p : Nat) : PhaseKeep s (closePc s p) := closePc1_phaseKeep s p
 
 theorem closePcsWhere_phaseKeep (sel : PConn → Bool) (s : State) : PhaseKeep s (closePcsWhere sel s) := by
   unfold closePcsWhere
